@@ -215,6 +215,7 @@ pub fn check(id: &str, tier: Tier) -> Result<Report, String> {
         "C24" => crate::e2c::check_c24(tier),
         "C27" => crate::e2d::check_c27(tier),
         "C14" => crate::adv::check_c14(tier),
+        "C15" => crate::fork::check_c15(tier),
         "C01" => crate::c01::check_c01(tier),
         "C23" => crate::e2f::check_c23(tier),
         "C28" => crate::e2f::check_c28(tier),
@@ -235,6 +236,9 @@ pub fn replay_other(v: &serde_json::Value) -> i32 {
     }
     if matches!(v["engine"].as_str(), Some("c01bytes") | Some("c01script")) {
         return crate::c01::replay(v);
+    }
+    if v["engine"].as_str() == Some("fork") {
+        return crate::fork::replay(v);
     }
     if v["engine"].as_str() == Some("adv") {
         return crate::adv::replay(v);
